@@ -272,21 +272,21 @@ let predict (c : string) (obs : string) : string * string * bool =
             end
         | "unk" ->
             let k = str_of_hex mutarg in
-            (match classify gen_registry false path schema dflt tree with
+            (match classify gen_registry false false path schema dflt tree with
              | PStrict acc ->
                  if accepted_b k acc then ("ok", false)
                  else if obs = "err" then ("ok", true) else ("BAD:unknown-key-accepted", true)
              | PFree -> ("ok", false)
              | PBad -> ("BAD:bad-path", false))
         | "typ" ->
-            (match schema_at gen_registry false path schema dflt tree, value_at path tree with
+            (match schema_at gen_registry false false path schema dflt tree, value_at path tree with
              | Some ((s', _), _), Some x ->
                  let wrong = wrong_type_b s' x || (match x with VStr t -> wrong_type_str_b s' t | _ -> false) in
                  if not wrong then ("ok", false)
                  else if obs = "err" then ("ok", true) else ("BAD:wrongly-typed-value-accepted", true)
              | _, _ -> ("BAD:bad-path", false))
         | "rng" ->
-            (match schema_at gen_registry false path schema dflt tree, value_at path tree with
+            (match schema_at gen_registry false false path schema dflt tree, value_at path tree with
              | Some ((s', tags), d'), Some x ->
                  let violates =
                    (match decode env prop orc orcq gen_registry model_factory_lazy (nat_of_int 3) s' d' x with
@@ -303,7 +303,7 @@ let predict (c : string) (obs : string) : string * string * bool =
               | _ -> None) in
             (match probe with
              | Some t' ->
-                 (match schema_at gen_registry false (path @ [SKey k]) schema dflt t' with
+                 (match schema_at gen_registry false false (path @ [SKey k]) schema dflt t' with
                   | Some ((s', tags), d') ->
                       if check_field orc s' d' tags then ("ok", false)
                       else if obs = "err" then ("ok", true) else ("BAD:missing-required-value-accepted", true)
@@ -317,7 +317,7 @@ let predict (c : string) (obs : string) : string * string * bool =
                  if obs_d = want then ("ok", true) else ("BAD:placeholder-not-substituted expected " ^ (if String.length want > 60 then String.sub want 0 60 else want), true)
              | None -> ("BAD:bad-path", false))
         | "bare" ->
-            (match reach gen_registry false path [] schema dflt tree with
+            (match reach gen_registry false false path [] schema dflt tree with
              | Some (((SPlugin (iface, _), _), _), VMap kvs) ->
                  (match plugin_entry gen_registry iface kvs with
                   | Some e ->
